@@ -13,6 +13,7 @@ package event
 //@ props C19 C16
 //@ func Event.Subscribe
 //@   nopanic
+//@   assigns @e
 //@   requires specEventInv(e) && e.nextID < 18446744073709551615
 //@   ensures specEventInv(e)
 //@   ensures len(e.subscribers) == old(len(e.subscribers)) + 1
